@@ -200,7 +200,7 @@ def measure(cell, seed, npts):
             # the normalisation where the integrand a^(power-2) counts as a^(power-1)
             exps.append(math.log2(d[0][0] / d[1][0]))
         if not exps:
-            return {"resolved": False, "why": "difference below the cancellation noise of the closed form", "exp100": 0}
+            return {"resolved": False, "why": "no sampled point where the leading neglected Taylor term dominates the next one and the difference exceeds 1e3 x cancellation noise", "exp100": 0}
         e = min(exps)
         return {"exp100": c.exp100(e), "raw": e, "resolved": True, "n": len(exps), "dropped_points": unresolved}
 
